@@ -2,8 +2,8 @@
 From Coq Require Import String NArith List Bool.
 From GF Require Import Base.Res Base.Bytes Base.Layout Base.Gen Model.NF Spec.EncNF Spec.GenNF.
 Import ListNotations.
-Open Scope N_scope.
 Local Open Scope string_scope.
+Open Scope N_scope.
 
 (* expected observation of a history of well-formed messages; "notwf" if the generator
    produced something outside the theorem's hypothesis (counted, never compared) *)
